@@ -415,7 +415,7 @@ def gen_ptr_case(rng):
     T = rng.choice(['a.example', 'example.com', 'b.example', 'mail.c.example'])
     other = 'x' + T[1:] if T[0] != 'x' else 'y' + T[1:]
     pool = ['x' + T, 'mail.not' + T, 'not' + T, T + '.evil.test', T, 'mail.' + T, 'a.b.' + T, other, T[1:], T[2:], 'x.' + other, '-' + T, 'mail' + T,
-            T.split('.', 1)[1], 'q.' + T.split('.', 1)[1]]
+            T.split('.', 1)[1], 'q.' + T.split('.', 1)[1], T.upper(), 'Mail.' + T.upper(), 'mail.' + T.capitalize(), 'X' + T.upper()]
     names = [rng.choice(pool) for _ in range(rng.choice([1, 1, 2, 3, 4]))]
     if rng.random() < 0.5:
         names[rng.randrange(len(names))] = rng.choice(pool[:4])      # a name that ends in the target without a label boundary
